@@ -2328,7 +2328,7 @@ class StateEngine(object):
                         if key.endswith("Path"):  # Handle variable to variable comparison
                             # Slice off "Path" suffix and get value from path
                             key = key[:-4]
-                            value = apply_path(data, context, value)
+                            value = apply_path(input, context, value)
 
                         """
                         The "asl_choice_" prefix mitigates the risk of the key
